@@ -600,6 +600,100 @@ def check_ranges(chk, F):
     chk.floor(rid, "range cases", n_cases, 100)
 
 
+# ---- R12.9 what kind of key a key is ---------------------------------------------------------------------------------------------
+
+def check_key_kinds(chk, F):
+    from ..interp import Machine, Adt, Term, PyVec, Panic, NONE
+    from ..report import Unsupported
+    rid = "R12.9"
+    chk.rule(rid, "the key-kind predicates the context rules are decided on (MiniscriptKey::is_uncompressed / is_x_only_key / "
+                  "num_der_paths), for every key type of the crate: a full key is uncompressed exactly when its flag says so, "
+                  "only x-only keys are x-only, extended keys are neither and have 1 (single path) or n (multipath) "
+                  "derivation paths, wrappers answer as the key they wrap (every impl of the trait must be in this table)")
+    K = "descriptor::key::"
+    imps = {i.get("self_adt") or i.get("self_ty"): i for i in F.impls if (i["trait"] or "").endswith("MiniscriptKey")}
+    default_unc = "MiniscriptKey::is_uncompressed"
+    if default_unc not in F.bodies:
+        chk.fail(rid, "anchor", "MiniscriptKey::is_uncompressed default not found", kind="unanalysable")
+        return
+
+    def pk(c):
+        return Adt("bitcoin::PublicKey", "PublicKey", {"compressed": c, "inner": Term("secp-key")})
+
+    def single(key):
+        return Adt(K + "SinglePub", "SinglePub", {"origin": NONE, "key": key})
+
+    def full(c):
+        return Adt(K + "SinglePubKey", "FullKey", {"0": pk(c)})
+    xo = Adt(K + "SinglePubKey", "XOnly", {"0": Term("xonly-key")})
+
+    def paths(n):
+        return Adt(K + "DerivPaths", "DerivPaths", {"0": PyVec([PyVec([]) for _ in range(n)])})
+    xkey = Adt(K + "DescriptorXKey", "DescriptorXKey", {"origin": NONE, "xkey": Term("xpub"), "derivation_path": PyVec([]),
+                                                        "wildcard": Term("wc")})
+
+    def mxkey(n):
+        return Adt(K + "DescriptorMultiXKey", "DescriptorMultiXKey", {"origin": NONE, "xkey": Term("xpub"), "derivation_paths": paths(n),
+                                                                      "wildcard": Term("wc")})
+
+    def dpk(v, inner):
+        return Adt(K + "DescriptorPublicKey", v, {"0": inner})
+    KX = "descriptor::wallet_policy::key_expression::KeyExpression"
+    BK = "interpreter::BitcoinKey"
+    # type -> [(label, value, (uncompressed, x-only, paths))]; None = not judged (no context looks at it)
+    table = {
+        "bitcoin::secp256k1::PublicKey": [("key", Term("secp-key"), (False, False, 0))],
+        "bitcoin::PublicKey": [("compressed", pk(True), (False, False, 0)), ("uncompressed", pk(False), (True, False, 0))],
+        "bitcoin::XOnlyPublicKey": [("key", Term("xonly-key"), (False, True, 0))],
+        "std::string::String": [("name", "A", (False, False, 0))],
+        K + "SinglePub": [("compressed", single(full(True)), (False, False, 0)), ("uncompressed", single(full(False)), (True, False, 0)),
+                          ("x-only", single(xo), (False, True, 0))],
+        K + "DescriptorXKey": [("xpub", xkey, (False, False, 1))],
+        K + "DescriptorMultiXKey": [("2 paths", mxkey(2), (False, False, 2)), ("3 paths", mxkey(3), (False, False, 3))],
+        K + "DescriptorPublicKey": [("single compressed", dpk("Single", single(full(True))), (False, False, 0)),
+                                    ("single uncompressed", dpk("Single", single(full(False))), (True, False, 0)),
+                                    ("single x-only", dpk("Single", single(xo)), (False, True, 0)),
+                                    ("xpub", dpk("XPub", xkey), (False, False, 1)), ("multi 3", dpk("MultiXPub", mxkey(3)), (False, False, 3))],
+        K + "DefiniteDescriptorKey": [("single uncompressed", Adt(K + "DefiniteDescriptorKey", "DefiniteDescriptorKey", {"0": dpk("Single", single(full(False)))}), (True, False, 0)),
+                                      ("single x-only", Adt(K + "DefiniteDescriptorKey", "DefiniteDescriptorKey", {"0": dpk("Single", single(xo))}), (False, True, 0)),
+                                      ("xpub", Adt(K + "DefiniteDescriptorKey", "DefiniteDescriptorKey", {"0": dpk("XPub", xkey)}), (False, False, 1))],
+        KX: [("2 paths", Adt(KX, "KeyExpression", {"index": Term("i"), "derivation_paths": paths(2), "wildcard": Term("wc")}), (False, False, 2))],
+        # the interpreter's key wrapper lives in the NoChecks context only: is_x_only_key is not looked at there
+        BK: [("full compressed", Adt(BK, "Fullkey", {"0": pk(True)}), (False, None, 0)), ("full uncompressed", Adt(BK, "Fullkey", {"0": pk(False)}), (True, None, 0)),
+             ("x-only", Adt(BK, "XOnlyPublicKey", {"0": Term("xonly-key")}), (False, None, 0))],
+    }
+    for ty in sorted(imps):
+        if ty not in table:
+            chk.fail(rid, "unlisted|" + ty, "impl MiniscriptKey for %s is not in the checker's key-kind table" % ty, F.adts.get(ty, {}).get("span", ""))
+    m = Machine(F, strict=True)
+    n = 0
+    for ty, rows in sorted(table.items()):
+        imp = imps.get(ty)
+        if imp is None:
+            chk.fail(rid, "anchor|" + ty, "impl MiniscriptKey for %s not found" % ty, kind="unanalysable")
+            continue
+        items = {it["name"]: it["path"] for it in imp["items"]}
+        for label, val, want in rows:
+            for nm, w in zip(("is_uncompressed", "is_x_only_key", "num_der_paths"), want):
+                if w is None:
+                    continue
+                p = items.get(nm) or (default_unc if nm == "is_uncompressed" else None)
+                if p is None or p not in F.bodies:
+                    chk.fail(rid, "anchor|%s|%s" % (ty, nm), "%s::%s not found" % (ty, nm), kind="unanalysable")
+                    continue
+                chk.saw(p)
+                try:
+                    got = m.call_path(p, [val])
+                    n += 1
+                    chk.obligation(rid, got == w and type(got) is type(w), "%s|%s|%s" % (ty.split("::")[-1], label, nm),
+                                   "%s of a %s %s is %r, expected %r" % (nm, label, ty, got, w), F.fns[p]["span"])
+                except Unsupported as e:
+                    chk.fail(rid, "unanalysable:%s|%s|%s" % (ty, label, nm), "unanalysable: %s" % e, where=e.where, kind="unanalysable")
+                except Panic as e:
+                    chk.fail(rid, "%s|%s|%s" % (ty, label, nm), "panic: %s" % e, F.fns[p]["span"])
+    chk.floor(rid, "predicate values", n, 60)
+
+
 def run(chk):
     F = chk.facts()
     chk.explanation = (
@@ -632,3 +726,4 @@ def run(chk):
     al = RuleAlias(chk, {"R04.2n": "R12.8", "R04.2k": "R12.8"}, "the byte counts the size limits are applied to")
     chk.guard("R12.8", "num-size", c04.check_num_size, al, F)
     chk.guard("R12.8", "pk-len", c04.check_pk_len, al, F)
+    chk.guard("R12.9", "key-kinds", check_key_kinds, chk, F)
